@@ -214,6 +214,9 @@ func (c *simConn) Write(p []byte) (int, error) {
 	if c.closed {
 		return 0, net.ErrClosed
 	}
+	if len(p) == 0 {
+		return 0, nil // writing nothing succeeds and tells nothing about the connection
+	}
 	n, out := len(p), "ok"
 	if len(c.policy) > 0 {
 		e := c.policy[0]
